@@ -16,7 +16,7 @@ sequences over <= 4 (quick) / <= 5 (thorough) keys for keyed lists and leaf-list
 import json, os
 from vlib import treegen as tg, paths
 
-LEAN_TARGETS = ["LyModel.Props.C06"]
+LEAN_TARGETS = ["LyModel.Props.C06", "LyModel.Props.C06UO"]
 AUDIT = "Audit/C06.lean"
 HARNESS = "api_diff"
 COMP = "diff"
